@@ -39,7 +39,7 @@ CHECKS = {
    note="Trusted base: the feature renderers (a combination rejected in either syntax is counted, not judged), ValidatorSchema PartialEq. Translation returning Err is skipped and counted.",
    design="§3 C09, §8"),
  "C10": dict(
-   technique="bounded-exhaustive enumeration of values to depth 2 (16 atoms, sets, records with escape-like keys) placed in entity attributes, tags and contexts; JSON round trip, schema-derived parsing, and every implicit/explicit choice vector per entity-reference / extension-value occurrence compared with the explicit form parsed without schema",
+   technique="bounded-exhaustive enumeration of values to depth 2 (16 atoms, sets, records with escape-like keys) placed in entity attributes, tags and contexts; JSON round trip, schema-derived parsing, and every implicit/explicit choice vector per entity-reference / extension-value occurrence compared with the explicit form parsed without schema; the same round trip for contexts holding an unknown next to each value (restricted-expression serialisation path)",
    text="Model checking in the small-scope sense: all values up to depth 2 over the atom alphabet are serialised and parsed back by the real code (deep_eq), reserved keys must be refused or round-trip exactly, and for the schema derived for each datum every vector of implicit|explicit|bare-constructor-argument spellings (<= 4 occurrences) must parse to the same data as the explicit form without schema. The JSON layer dispatches on expected type x escape spelling x value shape, a product this enumerates.",
    note="Trusted base: refsem val_json renderer, the library's deep_eq (checked against reachability in C04), bind::abs_value for contexts.",
    design="§3 C10, §8"),
